@@ -49,6 +49,7 @@ type rec struct {
 	keyBad  bool
 	lit     string
 	null    []bool // per leaf: the stored row holds NULL in its column (set by checkStored)
+	keyPat  string // boundary values among the parts of a given (non-auto) key: "z" zero, "n" negative, "-" ordinary; "" = auto key
 }
 
 type env struct {
@@ -82,6 +83,7 @@ type env struct {
 	noNilSerGroups bool
 	modelMapBroken bool
 	noEmptyNotNull map[string]bool // kind names: an empty byte slice in a NOT NULL column was refused (reported once)
+	usedKeys       map[string]bool // key tuples handed to Create in this database (given keys only)
 }
 
 func (e *env) tx() *gorm.DB {
@@ -272,7 +274,68 @@ func (e *env) newRec(shape string, idx int, keyMode string, fnZero map[int]bool,
 		}
 		rc.given[l.ord] = v
 	}
+	e.boundaryKey(rc)
 	return rc
+}
+
+// boundaryKey puts boundary values into the parts of a key that the caller gives (single non-auto key,
+// composite keys): the zero value of the part's type (0, "") - a legal key part, stored by Create like any
+// other value - and negative numbers in signed parts. The key tuple stays unique in the table: a tuple that
+// was already handed to Create in this database is not generated a second time.
+func (e *env) boundaryKey(rc *rec) {
+	m := e.m
+	if m.auto != nil {
+		return
+	}
+	for _, l := range m.pks {
+		if !rc.given[l.ord].IsValid() {
+			return
+		}
+	}
+	tuple := func(vals []reflect.Value) string {
+		var parts []string
+		for i, l := range m.pks {
+			parts = append(parts, canonGo(l, vals[i]))
+		}
+		return strings.Join(parts, "\x00")
+	}
+	vals := make([]reflect.Value, len(m.pks))
+	pat := make([]byte, len(m.pks))
+	for i, l := range m.pks {
+		vals[i] = rc.given[l.ord]
+		pat[i] = '-'
+	}
+	r := e.r
+	zeroAt := -1
+	if len(m.pks) > 1 && r.Chance(1, 3) {
+		zeroAt = r.Intn(len(m.pks))
+	} else if len(m.pks) == 1 && r.Chance(1, 8) {
+		zeroAt = 0
+	}
+	for i, l := range m.pks {
+		switch {
+		case i == zeroAt:
+			vals[i] = reflect.Zero(l.typ)
+			pat[i] = 'z'
+		case l.class == "int" && r.Chance(1, 5):
+			v := reflect.New(l.typ).Elem()
+			v.SetInt(-vals[i].Int())
+			vals[i] = v
+			pat[i] = 'n'
+		}
+	}
+	if e.usedKeys[tuple(vals)] {
+		// keep the ordinary values (unique by construction)
+		for i, l := range m.pks {
+			vals[i] = rc.given[l.ord]
+			pat[i] = '-'
+		}
+	}
+	e.usedKeys[tuple(vals)] = true
+	for i, l := range m.pks {
+		rc.given[l.ord] = vals[i]
+	}
+	rc.keyPat = string(pat)
 }
 
 func setNum(v reflect.Value, x int64) {
@@ -651,6 +714,11 @@ func (e *env) checkReads(rc *rec) {
 	} else {
 		e.compareStruct(rc, out.Elem(), how)
 		e.c.Inc("struct_reads")
+	}
+	// struct destination that carries the key of the record (no Where): every record with a zero key
+	// part, every third of the others
+	if e.hasZeroKeyPart(rc) || e.readRot%3 == 0 {
+		e.destKeyRead(rc, []string{"First", "Take", "Find"}[(e.readRot/3)%3], "")
 	}
 	// map destination
 	mp := map[string]interface{}{}
@@ -1127,6 +1195,7 @@ func (e *env) finalFind() {
 	}
 	e.rereadAll()
 	e.reuseRound(byPayload)
+	e.destKeyRound()
 	e.current = "Find"
 	payOf := func(v reflect.Value) string { return getLeaf(v, m.payload).String() }
 	check := func(how string, n int, at func(i int) (string, func(rc *rec))) {
@@ -1249,7 +1318,7 @@ func runEnv(c *core.Ctx, m *model, o optSpec, feats []string, info map[string]in
 			ok = false
 		}
 	}()
-	e = &env{c: c, r: c.R.Fork(), h: h, m: m, opt: o.name, ret: !o.o.NoReturning, firstID: o.o.FirstID, viol: map[string][]string{}, emitted: map[string]bool{}, noEmptyNotNull: map[string]bool{}, big: 1000, info: info, fs: strings.Join(feats, ",")}
+	e = &env{c: c, r: c.R.Fork(), h: h, m: m, opt: o.name, ret: !o.o.NoReturning, firstID: o.o.FirstID, viol: map[string][]string{}, emitted: map[string]bool{}, noEmptyNotNull: map[string]bool{}, usedKeys: map[string]bool{}, big: 1000, info: info, fs: strings.Join(feats, ",")}
 	c.Logf("MODE %s table %s", o.name, m.table)
 	if err := e.tx().AutoMigrate(e.newModelPtr()); err != nil {
 		e.op("%s.AutoMigrate(&T{}) -> %v", e.recv(), err)
